@@ -17,7 +17,7 @@ import zlib
 
 from vf import iso
 from vf.c13_zygote import Zygote
-from vf.c13_case import CALLS, PRE_ACTIONS, api_name
+from vf.c13_case import CALLS, PEER_MSGS, PRE_ACTIONS, api_name
 
 META = dict(
     title="blocking calls return once the connection ends",
@@ -72,6 +72,8 @@ TIMINGS = ["before", "during", "after"]
 CHANNEL_REQUESTS = ["exec_command", "invoke_shell", "get_pty", "invoke_subsystem", "request_x11"]
 GARBAGE = ["bad_mac", "unknown_channel", "disconnect"]
 READING_CALLS = ["recv", "recv_stderr", "recv_exit_status", "file_read", "sftp_stat"]
+PEER_MSG_PARKED = ["recv", "recv_stderr", "recv_exit_status", "send", "sftp_stat"]
+PEER_MSG_LATER = ["exec_command", "invoke_shell"]
 
 
 def shards(tier):
@@ -166,6 +168,19 @@ def quick_cases(ctx, calls):
                 out.append(mk(call, l1, None, "before", pre=pre))
                 out.append(mk(call, l2, None, ["after", "during"][(ci + pi + ctx.seed) % 2], pre=pre,
                               f=round(rng.random(), 3)))
+        if call in PEER_MSG_PARKED or call in PEER_MSG_LATER:
+            # a protocol-level message from the peer names the established channel, then the loss
+            for pi, pm in enumerate(PEER_MSGS):
+                loss = ["peer_close", "link_eof", "local_close", "link_abrupt"][(ci + pi + ctx.seed) % 4]
+                if call in PEER_MSG_PARKED:
+                    out.append(mk(call, loss, None, "before", pre=pm))
+                    if pm in ("peer_open_failure", "peer_open_confirm_dup"):
+                        out.append(mk(call, ["local_close", "peer_close", "link_abrupt", "link_eof"][(ci + pi + ctx.seed) % 4],
+                                      None, "after", pre=pm))
+                else:
+                    out.append(mk(call, loss, None, "after", pre=pm))
+                    if pm == "peer_open_failure":
+                        out.append(mk(call, "peer_close", None, "during", pre=pm, at=AT_EVENT_PENDING[call]))
         if len(spec["roles"]) > 1:
             out.append(mk(call, ["peer_close", "local_close", "link_eof"][(ci + ctx.seed) % 3], None,
                           TIMINGS[(ci + ctx.seed) % 3], role=spec["roles"][1], f=f))
@@ -214,6 +229,14 @@ def thorough_extra(ctx, calls):
                     out.append(mk(call, "proxy_exit", "kill", "before", medium="proxy", pre=pre))
                     out.append(mk(call, "garbage", "bad_mac", "before", role=role, pre=pre))
                     out.append(mk(call, "send_fails_first", "global_request", "before", role=role, pre=pre))
+        if call in PEER_MSG_PARKED or call in PEER_MSG_LATER:
+            for role in spec["roles"]:
+                for pm in PEER_MSGS:
+                    for loss, var in LINK_LOSSES:
+                        for timing in ("before", "after"):
+                            out.append(mk(call, loss, var, timing, role=role, pre=pm))
+                    out.append(mk(call, "proxy_exit", "kill", "before", medium="proxy", pre=pm))
+                    out.append(mk(call, "proxy_exit", "usr1", "after", medium="proxy", pre=pm))
         if spec.get("tmo"):
             for loss, var in (("peer_close", None), ("local_close", None), ("link_abrupt", None)):
                 out.append(mk(call, loss, var, "before", tmo=2.0))
@@ -328,6 +351,8 @@ def judge(ctx, a, res, sample=False):
     if pre:
         ctx.count("pre_" + pre)
         ctx.count("cell_%s__%s" % (pre, call))
+        if v.get("pre_seen"):
+            ctx.count("peer_msgs_decoded_by_victim")
     ctx.count("tap_messages_seen", v.get("msgs_total") or v.get("msgs_before") or 0)
     if v.get("relay_gone"):
         ctx.count("relay_process_exits_observed")
@@ -414,7 +439,7 @@ def judge(ctx, a, res, sample=False):
                 where = "+".join((v.get("window") or {}).get("spin_states") or [where])
             when = TIMING_TEXT[a["timing"]]
             if pre:
-                when += ", local %s before the loss" % pre
+                when += (", %s from the peer before the loss" if pre.startswith("peer_") else ", local %s before the loss") % pre
             ctx.violation(
                 "%s %s in %s after transport death (%s)" % (
                     who, "blocked" if verdict == "blocked" else "livelocked", where, when),
@@ -539,6 +564,11 @@ def _run(ctx):
         for pre in PRE_ACTIONS:
             ctx.require("pre_" + pre, 2 * len(READING_CALLS) - 2)
             ctx.require("pre_%s_calls_completed" % pre, len(READING_CALLS))
+        for pm in PEER_MSGS:
+            ctx.require("pre_" + pm, len(PEER_MSG_PARKED) + len(PEER_MSG_LATER) - 1)
+        ctx.require("peer_msgs_decoded_by_victim", 4 * (len(PEER_MSG_PARKED) + len(PEER_MSG_LATER)))
+        for pm in ("peer_open_failure", "peer_open_confirm_dup", "peer_close_other", "peer_chan_success"):
+            ctx.require("pre_%s_calls_completed" % pm, len(PEER_MSG_PARKED))
         return
     stop_at = ctx.t0 + 450
     base = [dict(c, count_lines=True) if c["timing"] == "before" else c for c in thorough_base(ctx, calls)]
